@@ -1,5 +1,8 @@
 import UF.Driver.Decode
+import UF.Driver.Ops.GroupE
+import UF.Driver.Ops.GroupH
 import UF.Compose2.MatchFull
+import UF.Compose2.NewRuleFull
 /- Ops of work group I2 (see notes/AGENT_GUIDE.md). Return `none` for ops of other groups. -/
 namespace UF.Ops.I2
 open UF UF.I2
@@ -38,6 +41,56 @@ def opMatch (args : List W) : String :=
     | _, _, _, _ => "bad-decode"
   | _ => "bad-arity"
 
+/-! ### The complete model of `rules.NewRule` -/
+
+def encCosRule (c : CosRule) : String :=
+  outList ["K", outBytes c.text, toString c.listID, outBytes c.content, encStrs c.permDomains,
+    encStrs c.restrDomains, outBool c.whitelist]
+
+def encRule : Rule → String
+  | .net r => encNetRule r
+  | .host h => H.encHostRule h
+  | .cos c => encCosRule c
+
+def outNewRule (x : E.PE (Option Rule)) : String :=
+  match x with
+  | .ok none => "none"
+  | .ok (some r) => H.tok (encRule r)
+  | .error .err => "err"
+  | .error .panic => "PANIC"
+
+/-- The complete rule parser with the `$dnsrewrite` values outside the domain of group H's ASCII model
+    of `ToUpper`/`EqualFold` answered by `dflt` (the driver runs it with two different defaults: if the
+    outcomes differ, such a value mattered and the line is out of domain). -/
+def ruleExtProbe (ext : Ext) (reShortcut : Bytes → Bytes) (dflt : Option DnsRewrite) : E.RuleExt :=
+  let rx := fullRuleExt ext reShortcut
+  { rx with px := { rx.px with loadDNSRewrite := fun v => if H.dnsRewriteInDomain v then rx.px.loadDNSRewrite v else dflt } }
+
+/-- `strings.ToLower` of the shortcut is modelled on ASCII. -/
+def ruleInDomain (x : E.PE (Option Rule)) : Bool :=
+  match x with
+  | .ok (some (.net r)) => Bytes.isAscii r.shortcut
+  | _ => true
+
+def mkParserExt (addrs : List (Bytes × Option Addr)) (prefixes : List (Bytes × Option Prefix)) : Ext :=
+  { mkExt [] addrs [] with parsePrefix := tableLookup prefixes none }
+
+/-- `i2.newrule <line> <listID> <addrs> <prefixes> <reshortcuts>`: the complete model of `rules.NewRule`;
+    the answer is the whole parsed record (`R`/`H`/`K` dump), `none`, `err` or `PANIC`.  The only
+    Go-supplied tables: `netip.ParseAddr`, `netip.ParsePrefix`, the shortcut of a `/regex/` pattern. -/
+def opNewRule (args : List W) : String :=
+  match args with
+  | [line, id, addrs, prefixes, shortcuts] =>
+    match line.bytes?, id.int?, decAddrTable addrs, decPrefixTable prefixes, decShortcutTable shortcuts with
+    | some line, some id, some addrs, some prefixes, some shortcuts =>
+      let ext := mkParserExt addrs prefixes
+      let sc := tableLookup shortcuts []
+      let a := E.newRule (ruleExtProbe ext sc none) line id
+      let b := E.newRule (ruleExtProbe ext sc (some {})) line id
+      if outNewRule a != outNewRule b || !ruleInDomain a then "ood -" else outNewRule a ++ " -"
+    | _, _, _, _, _ => "bad-decode"
+  | _ => "bad-arity"
+
 end UF.Ops.I2
 
 namespace UF.Ops
@@ -46,6 +99,7 @@ def dispatchI2 (op : String) (args : List W) : Option String :=
   match op with
   | "i2.pat" => some (I2.opPat args)
   | "i2.match" => some (I2.opMatch args)
+  | "i2.newrule" => some (I2.opNewRule args)
   | _ => none
 
 end UF.Ops
